@@ -1513,6 +1513,8 @@ Data2D<int> GridLocalPolynomial::buildUpdateMap(double tolerance, TypeRefinement
     if (tolerance == 0.0) return pmap;
 
     std::vector<double> norm = getNormalization();
+    // an output that is identically zero has zero surpluses, avoid the 0/0 that fails every "below tolerance" test
+    for(auto &nrm : norm) if (nrm == 0.0) nrm = 1.0;
 
     int active_outputs = (output == -1) ? num_outputs : 1;
     Utils::Wrapper2D<double const> scale(active_outputs, scale_correction);
